@@ -76,4 +76,25 @@ HARNESSES = [
     dict(name="dr_create_stream", file="dr_create_stream.c", label="proved", timeout=170,
          fp=dict(_FP_DR, **{"sqfs_drop:destroy": "data_reader_destroy"}),
          malloc_fail=True, flags=_UF, unwindset=["strlen.0:6"]),
+    dict(name="xattr_value", file="xattr_value.c", label="proved", timeout=170,
+         fp={"read_at": "stub_read_at", "destroy": "xattr_reader_destroy",
+             "copy": "xattr_reader_copy"},
+         malloc_fail=True, flags=_UF),
+    dict(name="xattr_desc", file="xattr_desc.c", label="proved", timeout=170,
+         fp={"read_at": "stub_read_at", "destroy": "xattr_reader_destroy",
+             "copy": "xattr_reader_copy"},
+         unwindset=["harness.0:4", "harness.1:9", "verif_nd_bytes.0:17", "memset.0:17"]),
+    dict(name="xattr_load", file="xattr_load.c", label="bounded(xattr id table blocks <= 2)",
+         timeout=170, malloc_fail=True,
+         fp={"read_at": "stub_read_at", "do_block": "stub_do_block",
+             "destroy": "xl_reader_destroy", "copy": "xattr_reader_copy"},
+         cases=[dict(id="idblk%d" % k, defines={"NIDBLK": k}, tier="quick",
+                     unwindset=["sqfs_xattr_reader_load.0:%d" % (k + 1)]) for k in (0, 1, 2)]),
+    # key size bounded (KV_KEYMAX) only for the strlen of the harness' own check;
+    # the function itself sees the full 16 bit key size
+    dict(name="xattr_kv", file="xattr_kv.c", label="proved", timeout=170,
+         fp={"read_at": "stub_read_at", "destroy": "xattr_reader_destroy",
+             "copy": "xattr_reader_copy"},
+         nochecks=["--conversion-check"], malloc_fail=True, flags=_UF,
+         unwindset=["strlen.0:12", "sqfs_get_xattr_prefix.0:4"]),
 ]
